@@ -68,10 +68,12 @@ class Peer (object):
       if guard > 100000: raise AdapterError("Connection.read does not drain")
     return True
 
-  def handshake (self, dpid, ports, n_buffers=0, early=b""):
+  def handshake (self, dpid, ports, n_buffers=0, early=b"", barrier="reply"):
     """Full handshake; returns True when ConnectionUp should have fired.
     `early`: bytes the switch sends between its features reply and the
-    barrier reply (e.g. port-status messages)."""
+    barrier reply (e.g. port-status messages).  barrier="error": the switch
+    does not know barriers and says so (BAD_REQUEST / BAD_TYPE with the
+    barrier's xid), which completes the handshake just the same."""
     self.feed(ofwire.enc_message("hello", dict(xid=0)))
     self.sent_messages()
     fr = ofwire.enc_message("features_reply", dict(
@@ -84,5 +86,10 @@ class Peer (object):
     if bx is None:
       raise AdapterError("no barrier request after features reply")
     if early: self.feed(early)
-    self.feed(ofwire.enc_message("barrier_reply", dict(xid=bx)))
+    if barrier == "error":
+      self.feed(ofwire.enc_message("error", dict(
+        xid=bx, type=1, code=1,
+        data=ofwire.enc_message("barrier_request", dict(xid=bx)))))
+    else:
+      self.feed(ofwire.enc_message("barrier_reply", dict(xid=bx)))
     return True
